@@ -218,7 +218,7 @@ def check_all(ctx, decisive, label):
     for n, num in ((0, 20), (1, 100), (2, 300), (3, 600), (4, 300)) if q else \
             ((0, 50), (1, 500), (2, 3000), (3, 6000), (4, 6000)):
         g = {"N": n, "WLO": 1, "WHI": 3, "PICKS": 10, "UPDATES": 2, "FLIPS": 3, "CONNOPS": 4,
-             "MAXCONN": 3, "OPS": 12, "SCALE": 100}
+             "MAXCONN": 3, "OPS": 12 if n else 8, "SCALE": 100}   # N = 0: only picks and reloads exist
         cases += gen(ctx, "Gen_All.cfg", g, mode="sim", num=num, depth=16)
     algos = ["smooth", "simple", "sticky", "wlc_smooth", "wlc_simple"]
     cases += random_cases(ctx, 60 if q else 600, 6, 9, 60 if q else 150, algos, stream=1)
@@ -503,6 +503,21 @@ def check_c04(ctx):
     check_all(ctx, {"ReplyOK", "unknown-backend"}, "C04")
     q = ctx.tier == "quick"
     run_cases(ctx, slowstart_cases(ctx, 12 if q else 120), twin=False, label="C04-slowstart", decisive={"ReplyOK", "unknown-backend"})
+    # decision table: every weight vector x every connection-count vector for 4 backends (GenWlcTable.tla); the replies are
+    # judged by TraceSlb against SlbP.ArgMin
+    tabs = [{"N": 4, "WS": "{1, 2}", "MAXC": 3, "PICKS": 4, "ALGO": '"wlc_smooth"'}]
+    if not q:
+        tabs += [{"N": 4, "WS": "{1, 2}", "MAXC": 3, "PICKS": 3, "ALGO": '"wlc_simple"'},
+                 {"N": 5, "WS": "{1, 2}", "MAXC": 2, "PICKS": 5, "ALGO": '"wlc_smooth"'}]
+    for d in tabs:
+        r = ctx.tlc("Balancer", "GenWlcTable", "Gen_WlcTable.cfg", mode="mc", defines=d, timeout=1500, count=False)
+        if not r.ok or not r.cases:
+            raise vlib.MachineryError("GenWlcTable %s failed: %s %s" % (d, r.error or r.violation, r.out[-500:]))
+        ctx.cov["constants"]["Gen_WlcTable_N%d_%s" % (d["N"], d["ALGO"].strip('"'))] = dict(d, cases=len(r.cases))
+        run_cases(ctx, r.cases, twin=False, label="C04-table", decisive={"ReplyOK", "unknown-backend", "panic", "hang"})
+    ctx.cov["rule"] += (" Plus the complete decision table for 4 backends (weights {1,2}, 0..3 connections each; thorough: also "
+                        "wlc_simple and 5 backends): every table row is a history load / ConnOps / WLC picks replayed on the "
+                        "real BalanceRR.")
     ctx.cov["rule"] += (" Plus seeded slow-start scenarios in real time (a restarted backend's effective weight ramps up): the "
                         "effective weights are read before and after each least-connection pick and the reply must be minimal "
                         "for some weight vector between the two readings (TraceSlb.RangeOK).")
